@@ -396,3 +396,42 @@ def partitions(slots, dom, budget, nparts, rng, must_free=()):
         # a fixed pick must be consistent: nothing to do, apply_state handles any combination
         parts.append(fixed)
     return parts, False
+
+
+def referenced_names(tid):
+    """names of options that some expression / value of the tree refers to (from the DSL AST; fixtures: all)"""
+    t = get_tree(tid)
+    if t is None:
+        return None
+    acc = set()
+
+    def visit(n, ctx):
+        from .trees.dsl import Cfg, Menu, If, Choice, Comment, parse_expr, expr_syms
+
+        exprs = []
+        if isinstance(n, Cfg):
+            exprs += [n.prompt_if] + list(n.depends) + [c for _, c in n.defaults] + [v for v, _ in n.defaults]
+            for lo, hi, c in n.ranges:
+                exprs += [lo, hi, c]
+            exprs += [c for _, c in n.selects] + [c for _, c in n.implies]
+            for _, v, c in list(n.sets) + list(n.set_defaults):
+                exprs += [v, c]
+        elif isinstance(n, Menu):
+            exprs += list(n.depends) + list(n.visible_if)
+        elif isinstance(n, If):
+            exprs.append(n.cond)
+        elif isinstance(n, Choice):
+            exprs += [n.prompt_if] + list(n.depends) + [c for _, c in n.defaults]
+        elif isinstance(n, Comment):
+            exprs += list(n.depends)
+        for e in exprs:
+            if e:
+                try:
+                    expr_syms(parse_expr(e), acc)
+                except Exception:
+                    pass
+
+    from .trees.dsl import walk
+
+    walk(t.children, visit)
+    return acc
